@@ -40,6 +40,9 @@ func drawAllocator(prog *simrt.Stream, b Bounds) signal.Allocator {
 	if c > b.MaxC {
 		c = b.MaxC
 	}
+	if prog.Draw(48) == 47 {
+		c = 60 + prog.Draw(80) // rare: very wide buffers (the properties do not bound the channel count)
+	}
 	k := kTable[prog.Draw(len(kTable))]
 	if prog.Draw(2) == 1 {
 		k = prog.Draw(b.MaxK + 1) // any capacity, not only the round ones
